@@ -1,6 +1,9 @@
 package exec
 
 import (
+	"math/big"
+	"strings"
+
 	"gosymx/sym"
 )
 
@@ -41,6 +44,109 @@ func SiteAssumeFor(names []string) map[string]func(m *Machine, args []Value) *sy
 		out[sd.Func] = func(m *Machine, args []Value) *sym.Bool {
 			return m.ctx.Not(ex(m, args))
 		}
+	}
+	return out
+}
+
+// SummaryDefs: function summaries that may replace a real function in strict
+// runs. Each is justified by a lemma harness that the same check discharges on
+// the same tree (named in Lemma), so a change inside the summarised function
+// still fails the check.
+type SummaryDef struct {
+	Lemma string
+	Text  string
+	Fn    func(m *Machine, args []Value) Value
+}
+
+var SummaryDefs = map[string]SummaryDef{
+	// isCollinear(p1, shared, p2) == (exact cross product == 0), valid when no
+	// coordinate difference fed to productsAreEqual equals 1 (the triSign known
+	// finding); the summary assumes that site predicate itself.
+	"isCollinear": {
+		Lemma: "H_C14_collinear",
+		Text:  "isCollinear(p1,s,p2) := (s.X-p1.X)*(p2.Y-s.Y) == (s.Y-p1.Y)*(p2.X-s.X), assuming no factor equals 1",
+		Fn: func(m *Machine, args []Value) Value {
+			k := intKind{64, true}
+			c := m.ctx
+			p1, s, p2 := aggValues(args[0]), aggValues(args[1]), aggValues(args[2])
+			a := c.Sub(m.lin(s[0], k), m.lin(p1[0], k))
+			b := c.Sub(m.lin(p2[1], k), m.lin(s[1], k))
+			cc := c.Sub(m.lin(s[1], k), m.lin(p1[1], k))
+			d := c.Sub(m.lin(p2[0], k), m.lin(s[0], k))
+			one := c.ConstI(1)
+			m.Assume(c.Not(c.OrN([]*sym.Bool{c.Eq(a, one), c.Eq(b, one), c.Eq(cc, one), c.Eq(d, one)})))
+			m.res.SiteExcuses = appendUnique(m.res.SiteExcuses, "isCollinear(summary)")
+			return m.boolVal(c.Eq(c.Mul(a, b), c.Mul(cc, d)))
+		},
+	},
+}
+
+func init() {
+	// PerpendicDistFromLineSqr64 as an uninterpreted non-negative function of
+	// its point and (unordered) line points: used to check SimplifyPath64's
+	// bookkeeping for every possible kernel. The real kernel is bitwise
+	// symmetric in the two line points (|cross| and len^2 are exact integers).
+	SummaryDefs["PerpendicDistFromLineSqr64"] = SummaryDef{
+		Lemma: "H_C16_kernel",
+		Text:  "PerpendicDistFromLineSqr64(pt,l1,l2) := UF(pt,l1,l2) >= 0 (arbitrary kernel)",
+		Fn: func(m *Machine, args []Value) Value {
+			k := intKind{64, true}
+			c := m.ctx
+			var ls []*sym.Lin
+			for _, a := range args[:3] {
+				p := aggValues(a)
+				ls = append(ls, m.lin(p[0], k), m.lin(p[1], k))
+			}
+			r := c.UF("perpdist", sym.SReal, new(big.Rat), nil, ls...)
+			m.res.Approx = true
+			m.stub("PerpendicDistFromLineSqr64 = uninterpreted non-negative function (bookkeeping jobs only)")
+			return m.exactF(r)
+		},
+	}
+}
+
+func init() {
+	// The same abstraction plus the one fact about the real kernel that the
+	// epsilon = 0 claims need, which H_C16_kernel proves for the real code:
+	// the result is zero exactly when the line is degenerate or the three
+	// points are exactly collinear.
+	SummaryDefs["PerpendicDistFromLineSqr64+zero"] = SummaryDef{
+		Lemma: "H_C16_kernel",
+		Text:  "PerpendicDistFromLineSqr64(pt,l1,l2) := UF(pt,l1,l2) >= 0 with UF == 0 <=> (l1 == l2 or exact cross product == 0)",
+		Fn: func(m *Machine, args []Value) Value {
+			k := intKind{64, true}
+			c := m.ctx
+			var ls []*sym.Lin
+			for _, a := range args[:3] {
+				p := aggValues(a)
+				ls = append(ls, m.lin(p[0], k), m.lin(p[1], k))
+			}
+			r := c.UF("perpdist", sym.SReal, new(big.Rat), nil, ls...)
+			a := c.Sub(ls[0], ls[2])
+			b := c.Sub(ls[1], ls[3])
+			cc := c.Sub(ls[4], ls[2])
+			d := c.Sub(ls[5], ls[3])
+			cross := c.Sub(c.Mul(a, d), c.Mul(cc, b))
+			zero := c.Or(c.And(c.Eq0(cc), c.Eq0(d)), c.Eq0(cross))
+			c.Side = append(c.Side, c.Iff(c.Eq0(r), zero))
+			m.res.Approx = true
+			m.stub("PerpendicDistFromLineSqr64 = uninterpreted non-negative function that is zero iff degenerate or exactly collinear (lemma H_C16_kernel)")
+			return m.exactF(r)
+		},
+	}
+}
+
+func SummariesFor(names []string) map[string]func(m *Machine, args []Value) Value {
+	out := map[string]func(m *Machine, args []Value) Value{}
+	for _, n := range names {
+		sd, ok := SummaryDefs[n]
+		if !ok {
+			panic("unknown summary " + n)
+		}
+		if i := strings.IndexByte(n, '+'); i > 0 {
+			n = n[:i]
+		}
+		out[n] = sd.Fn
 	}
 	return out
 }
